@@ -1,6 +1,9 @@
 """C12, text level: compares the Lean text model (lean/RtoscModel/Save/Text.lean: save_to_file / load_from_file
-composed from C10's printer / checker / scanner models) with the compiled library.  NOT part of tools/check.py
-(the compiled driver does not contain the text model); evidence quoted in c12.TRUSTED.
+composed from C10's printer / checker / scanner models) with the compiled library.  SUPERSEDED by c12.text_level,
+which runs this comparison inside tools/check.py C12 in both tiers with the compiled load_from_file as the oracle of
+the load stage.  This stand-alone script is kept as a debugging aid only: its load oracle is the older, weaker one
+("restored, or the file holds +infinity") and reports files with NaN (C12-K9) or mixed option arrays (C12-K10) as
+NOT RESTORED although the compiled library rejects them as well.
 
     python3 tools/props/c12_textcheck.py [seed=7] [cases=600]
 
